@@ -7,6 +7,10 @@
    getobj <loc> <objid> <genno> <tokens ...>
    select <isMetadata>               decision table of decrypt for the handler of the last `open`
    unpad <data>                      unpad_aes
+   kdf.key <R> <length> <p> <O> <id0> <em> <pw>   compute_encryption_key
+   kdf.u <R> <id0> <key>             compute_u
+   kdf.recover <R> <length> <O> <pw> the user password authenticate_owner_password recovers from O
+   kdf.hash <R> <pw> <salt> <vector> _password_hash
    spec.select <v4plus> <em> <isStream> <isMeta> <stmf> <strf>   ISO 7.6.5 decision (twin of c10_keys.table_7_6_5)
    objkey <rc4|aes128> <key> <objid> <genno>    per-object key
    spec.enc <method> <key> <objid> <genno> <iv> <data>
@@ -208,6 +212,27 @@ def step (st : St) (line : String) : St × String :=
     match parseMethod stmf, parseMethod strf with
     | some a, some b => (st, (specSelect (v4 == "1") (em == "1") (isStream == "1") (isMeta == "1") a b).name)
     | _, _ => (st, "bad-op")
+  | ["kdf.key", r, len, p, o, id0, em, pw] =>
+    match r.toInt?, len.toNat?, p.toNat?, bytesOfHex o, bytesOfHex id0, bytesOfHex pw with
+    | some r, some len, some p, some o, some id0, some pw =>
+      let prm : Params := { r := r, o := o, docid0 := id0, encryptMetadata := em == "1" }
+      (st, hexOrDash (computeEncryptionKey (tablePrims st.table) prm len p pw))
+    | _, _, _, _, _, _ => (st, "bad-op")
+  | ["kdf.u", r, id0, key] =>
+    match r.toInt?, bytesOfHex id0, bytesOfHex key with
+    | some r, some id0, some key =>
+      (st, hexOrDash (computeU (tablePrims st.table) { r := r, docid0 := id0 } key))
+    | _, _, _ => (st, "bad-op")
+  | ["kdf.recover", r, len, o, pw] =>
+    match r.toInt?, len.toNat?, bytesOfHex o, bytesOfHex pw with
+    | some r, some len, some o, some pw =>
+      (st, hexOrDash (recoverUser (tablePrims st.table) { r := r, o := o } len pw))
+    | _, _, _, _ => (st, "bad-op")
+  | ["kdf.hash", r, pw, salt, vec] =>
+    match r.toInt?, bytesOfHex pw, bytesOfHex salt, bytesOfHex vec with
+    | some r, some pw, some salt, some vec =>
+      (st, hexOrDash (passwordHash (tablePrims st.table) r pw salt vec))
+    | _, _, _, _ => (st, "bad-op")
   | ["unpad", d] =>
     match bytesOfHex d with
     | some d => (st, hexOrDash (unpadAes d))
